@@ -12,7 +12,6 @@ Section R.
   Proof. reflexivity. Qed.
   Hint Rewrite r_message_generator : rfn.
 
-  Definition mfst {A B} (m : M (A * B)) : M A := x <- m ;; Val (fst x).
 
   Lemma r_eg_seal_scalar pk m g b seed k :
     mfst (gen_BlsElGamal_seal_scalar E pk m g b (seed, k)) = eg_seal_scalar O C dbg pk m g b seed k.
